@@ -28,7 +28,7 @@ type PropSpec struct {
 }
 
 func kinds(ks ...string) map[string]bool {
-	m := map[string]bool{"inv": true}
+	m := map[string]bool{"inv": true, "spec": true}
 	for _, k := range ks {
 		m[k] = true
 	}
